@@ -1087,6 +1087,14 @@ def btree_node_part(rep, thorough, label, light=False):
     rnd, gen, _ = vcore.tlc_simulate("BTreeNode.tla", os.path.join(vcore.SPEC, "GEN_BTreeNode.cfg"),
                                      160 if thorough else 40, 300, SEED + 17)
     rep.transitions += gen
+    # ... and histories in which a third of the commits hold 2..6 operations on (mostly neighbouring) keys
+    rndb, gen, _ = vcore.tlc_simulate("BTreeNode.tla", os.path.join(vcore.SPEC, "GEN_BTreeNode_batch.cfg"), 80 if thorough else 16, 220,
+                                      SEED + 19)
+    rep.transitions += gen
+    rep.extra["btree_commits_with_several_operations"] = sum(1 for b in rndb for st in b["steps"] if st["a"] == "batch")
+    if rep.extra["btree_commits_with_several_operations"] < 100:
+        raise ToolError("BTreeNode batch behaviours hold fewer than 100 commits with several operations: vacuous")
+    rnd = rnd + rndb
     if not thorough:
         # every transition kept with up to 10 behaviours spread over the enumeration, plus every 25th behaviour
         keep = set(range(0, len(canon), 25))
